@@ -361,3 +361,15 @@ def consistent(paths_, atom, start=0):
         if ok:
             out.append(q)
     return out, unknown
+
+
+def reduce_ifexp(expr, atom):
+    """Replace conditional expressions whose test the valuation decides by the selected branch."""
+    class T(ast.NodeTransformer):
+        def visit_IfExp(self, n):
+            self.generic_visit(n)
+            t = truth(n.test, atom)
+            if t is None:
+                return n
+            return n.body if t else n.orelse
+    return T().visit(clone(expr)) if expr is not None else None
